@@ -115,6 +115,8 @@ def spec_key_id(k):
         return ('type', k['t'])
     if k['op'] == 'tuple':
         return ('tuple', tuple(spec_key_id(e) for e in k['elems']))
+    if k['op'] == 'optional':          # two Optionals for one key are outside the fragment
+        return ('optional', B.tree_py(k['key']))
     return None
 
 
